@@ -346,6 +346,9 @@ def cluster_check(args, pid, judge_queries, topos, quick_n, thorough_n, text, no
                     V.violations += suspects[n]
                 else:
                     unreproduced += 1
+                    # kept for diagnosis: the events of the execution that showed the mismatch
+                    common.save_replay(pid, n + "-unreproduced-trace", {"scenario": by_id[n], "lines": [l for l in traces.get(n, []) if l.get("a") in ("Ev", "HarnessError")],
+                                                                         "mismatch": suspects[n][0][1]})
                     V.notes.append("%s: a mismatch (%s) did not show again in 2 re-executions of the scenario: not counted"
                                    % (n, suspects[n][0][1][:160]))
         else:
